@@ -182,14 +182,19 @@ inductive PkReq where
   | none | key (k : Nat) | bad
   deriving DecidableEq, Repr, Inhabited
 
+/-- The `MaxBalance` limit check of `RequestMintQuote` (the addition is Go's wrapping `uint64` addition). -/
+def checkMaxBalance (cx : Cx) (amount : UInt64) : PM Unit :=
+  if cx.cfg.maxBalance > 0 then do
+    let balance ← totalBalance
+    failIf (balance + amount > cx.cfg.maxBalance) eMintingDisabled
+  else pure ()
+
 /-- `Mint.RequestMintQuote`; `qid` is the id the new quote gets (creation order). -/
 def requestMintQuote (cx : Cx) (qid : Nat) (amount : UInt64) (unitSat : Bool) (pk : PkReq) : PM MintQ := do
   failIf (!unitSat) (11005, "unit-not-supported")
   failIf (pk == .bad) (10000, "bad-pubkey")
   failIf (cx.cfg.maxMint > 0 && amount > cx.cfg.maxMint) eMintAmountExceeded
-  if cx.cfg.maxBalance > 0 then
-    let balance ← totalBalance
-    failIf (balance + amount > cx.cfg.maxBalance) eMintingDisabled
+  checkMaxBalance cx amount
   match ← eff (.lnCreateInvoice amount) with
   | none => throw (2, "ln")
   | some h =>
